@@ -419,6 +419,11 @@ func (w *world) monitors(op, res string) {
 			if want := o.DelegateAmount.Sub(o.GetSlashAmount(frac)); after.Sub(before).LT(want) {
 				w.violate("stake not recoverable: UnbondedOracle pays less than stake minus penalty after maturity")
 			}
+			held := w.balOf(w.daddr(id))
+			left := w.s.App.BankKeeper.GetBalance(c, w.daddr(id), fxtypes.DefaultDenom).Amount
+			if !after.Sub(before).Equal(held.Sub(o.GetSlashAmount(frac))) || !left.IsZero() {
+				w.violate("wrong payout in UnbondedOracle: paid amount is not delegate-address balance minus penalty, or the penalty was not taken from the delegate address")
+			}
 		}
 	}
 }
@@ -656,16 +661,16 @@ func (w *world) opBlock(dt int64) {
 		// FinalizeBlock panicked or returned an error: the chain halts here
 		site := "other"
 		if strings.Contains(res, "decoding bech32 failed") {
-			site = "SlashOracle:MustAccAddressFromBech32(bridgeCallSlashing)"
+			site = "SlashOracle:MustAccAddressFromBech32"
 		}
 		w.dead = true
 		aged := 0
 		for _, x := range sn.objs {
-			if x.kind == "call" && x.height+w.window <= h {
+			if x.height+w.window <= h {
 				aged++
 			}
 		}
-		w.violate(fmt.Sprintf("C07 block processing halts: FinalizeBlock %s at height %d (%d outgoing bridge call(s) older than the signed window with an online oracle that did not confirm): %s", strings.SplitN(res, ":", 2)[0], h, aged, site))
+		w.violate(fmt.Sprintf("C07 block processing halts: FinalizeBlock %s at height %d (%d oracle set / batch / bridge call object(s) older than the signed window, %d online oracle(s)): %s", strings.SplitN(res, ":", 2)[0], h, aged, len(sn.online), site))
 		w.out.Count("block:panic")
 		w.out.Nontrivial("block:panic")
 		if !w.tainted {
